@@ -742,6 +742,19 @@ pub fn generate(seed: u64, tier: Tier, p: &Profile) -> Scenario {
                 // a mistaken first attempt: the plain entry point for a certificate that needs a script witness (refused)
                 plan.pre.push(Op::Cert(c.clone(), None));
             }
+            if let Some(w1) = &wit {
+                if g.r.chance(1, 8) {
+                    // the same script certificate handed over again with another witness (refused: the first one stays)
+                    let mut w2 = g.wit_for(w1.script);
+                    if w2.how == w1.how {
+                        w2.signers = match &w1.signers {
+                            Some(_) => None,
+                            None => Some(vec![g.kid()]),
+                        };
+                    }
+                    plan.pre_tail.push(Op::Cert(c.clone(), Some(w2)));
+                }
+            }
             if wit.is_none() && !g.plutus_ids.is_empty() && g.r.chance(1, 10) {
                 // a mistaken first attempt: a Plutus witness offered for a certificate that needs none (refused)
                 let s = *g.r.pick(&g.plutus_ids.clone());
@@ -805,12 +818,7 @@ pub fn generate(seed: u64, tier: Tier, p: &Profile) -> Scenario {
             let plutus = pm(&mut g.r, p.plutus) && !g.plutus_ids.is_empty();
             let s = if plutus { *g.r.pick(&g.plutus_ids.clone()) } else { *g.r.pick(&g.native_ids.clone()) };
             let mut wit = if plutus { g.wit_plutus(s, DatumUse::None) } else { g.wit_native(s, true) };
-            if !plutus {
-                // the mint builder counts every key of an inline native policy; declare nothing else
-                if wit.how == ScriptUse::Witness {
-                    wit.signers = None;
-                }
-            }
+
             if plutus {
                 plan.uses_plutus = true;
                 plan.langs |= 1 << (g.w.scripts[s as usize].lang().unwrap() - 1);
@@ -1032,6 +1040,7 @@ pub fn generate(seed: u64, tier: Tier, p: &Profile) -> Scenario {
     // ---- collateral
     let mut coll_ops: Vec<Op> = vec![];
     let mut helper_pct: Option<u64> = None;
+    let mut failing_pct_helper = false;
     let want_coll = plan.uses_plutus || g.r.chance(1, 12);
     if want_coll {
         let n = 1 + g.r.below(3);
@@ -1126,6 +1135,11 @@ pub fn generate(seed: u64, tier: Tier, p: &Profile) -> Scenario {
                     }
                 }
                 coll_ops.push(Op::CollReturnAndTotal(OutSpec { addr: ret_addr, coin, assets, datum: rdatum, script_ref: rsref, min_coin: false, form: 0 }));
+            }
+            if g.r.chance(1, 8) {
+                // later the percentage helper is tried although the fee is already fixed: it must fail and, as every
+                // failed attempt, leave neither field set
+                failing_pct_helper = true;
             }
             if g.r.chance(1, 3) {
                 // a second attempt on the same builder that is likely to be refused (return below its minimum ADA)
@@ -1233,6 +1247,10 @@ pub fn generate(seed: u64, tier: Tier, p: &Profile) -> Scenario {
         None
     };
     let change = ChangeSpec { addr: change_addr, datum, script_ref: if pm(&mut g.r, p.out_features / 3) { Some(g.r.below(g.w.scripts.len() as u64) as u16) } else { None } };
+    if failing_pct_helper {
+        ops.push(Op::FeeExact(*g.r.pick(&[300_000u64, 1_000_000, 2_000_000])));
+        ops.push(Op::SelectChangeCollateral(strat, off.clone(), change.clone(), 150));
+    }
     match (helper_pct, g.r.below(4)) {
         (Some(pct), _) => ops.push(Op::SelectChangeCollateral(strat, off.clone(), change.clone(), pct)),
         (None, 0) => {
